@@ -246,6 +246,12 @@ def run_index(case, ctx, rng):
                         # a plain int / bit list of exactly the selection's length
                         Z = B(*a); r = call(Z.__setitem__, sl, [(v >> j) & 1 for j in range(s)])
                         ctx.check('setitem', not is_exc(r) and (Z.ival, Z.size) == fl(w), r if is_exc(r) else vs(Z), fl(w), idx=str(sl), v='list', **det)
+                    if s == 0:
+                        # an empty selection (j:j, or an inverted one such as 5:2) assigned "nothing" in each spelling: nothing changes
+                        for ev in ([], 0, B(0, 0)):
+                            Z = B(*a); r = call(Z.__setitem__, sl, ev)
+                            if not is_exc(r):
+                                ctx.check('setitem', (Z.ival, Z.size) == fl(w) and Z.mask == M(n), vs(Z), fl(w), idx=str(sl), v=repr(ev), empty_selection=True, **det)
                     if (step in (None, 1)) and s > 0:
                         Z = B(*a); r = call(Z.__setitem__, sl, v)     # contiguous fast path takes any int that fits
                         ctx.check('setitem', not is_exc(r) and (Z.ival, Z.size) == fl(w), r if is_exc(r) else vs(Z), fl(w), idx=str(sl), v='int', **det)
